@@ -509,6 +509,12 @@ def main(argv):
         mine = {}
         inconclusive = skipped = 0
         reasons = {}
+        if fam.get("compile_must_succeed"):
+            # every program TLC enumerates for this family is a valid program (on the unchanged tree all of them compile):
+            # one that is rejected by the parser is a valid text rejected, not a case to skip
+            for i, v in list(verdicts.items()):
+                if v.startswith("skip:compile-error") and i <= stats["g_cases"]:
+                    verdicts[i] = "no;valid-program-rejected"
         for i, v in verdicts.items():
             if v.startswith("inc"):
                 inconclusive += 1
@@ -528,13 +534,21 @@ def main(argv):
         known_hits = {}
         unreproduced = []
         if reps:
+            def adjust(vd):
+                if fam.get("compile_must_succeed"):
+                    for j, vv in list(vd.items()):
+                        if vv.startswith("skip:compile-error") and j <= stats["g_cases"]:
+                            vd[j] = "no;valid-program-rejected"
+                return vd
             cverd, cevs = confirm(prop, fam, work, jh, specdir, evs, reps, cases)
+            adjust(cverd)
             # outcomes that depend on Go's map iteration order may need more than one attempt
             for attempt in range(4):
                 retry = [i for i in reps if cverd.get(i) is None or prop not in concerns(cevs[i], cverd.get(i))]
                 if not retry:
                     break
                 cv2, ce2 = confirm(prop, fam, work, jh, specdir, evs, retry, cases)
+                adjust(cv2)
                 for i in retry:
                     if cv2.get(i) is not None and prop in concerns(ce2[i], cv2[i]):
                         cverd[i] = cv2[i]
